@@ -675,6 +675,7 @@ func (fr *Frame) execMakeSlice(i *ssa.MakeSlice) {
 	hn, hs := U.elemHeapT(et)
 	h := vc.heap(fr.st, hn, hs)
 	vc.setHeap(fr.st, hn, hs, store(h, r, sx("(as const "+arrSort(SInt, es)+")", fr.zero(et))))
+	fr.onAllocArray(r)
 	fr.set(i, fr.mkVal(vc.define("mks", SSlice, sx("mkS", r, "0", ln.T, cp.T)), i.Type()))
 }
 
